@@ -33,7 +33,11 @@ META = {
     "of the instant, _freeze being set before any testbench runs) lives in the simulator runtime and is NOT modelled; "
     "the model takes the resulting event order as input and the correspondence exercises it (both testbench orders, "
     "five mock delays all shorter than the clock period, mid-cycle changes of readiness/arguments; a delay of a full "
-    "period or more is outside the model). validate_arguments_process is not modelled. Multi-call CallTrigger "
+    "period or more is outside the model). The mocked function may read Python-side state (not a signal) that another testbench updates; "
+    "model hypothesis: such updates happen between the clock edge and the end of the mock's delay (the purpose of "
+    "delay) - generators satisfy it for the DECLARED delay, the monitor compares with the state at the edge. Half of "
+    "the mocks are declared as methods of a class through def_method_mock (bound enable, delay, single_caller) and "
+    "the harness checks the keywords reached the MethodMock. validate_arguments_process is not modelled. Multi-call CallTrigger "
     "(.call/.sample of methods and of a plain value, await / until_done / until_all_done) is modelled and compared on a "
     "second design with three plain methods (no mock), executed calls counted per method by sampling Method.run. trusted: Lean kernel (propext, Classical.choice, Quot.sound), "
     "pysim, harness glue.",
